@@ -227,6 +227,41 @@ def note_case(res, name, ops):
     if len(res.samples) < 6 and npush >= 2:
         res.samples.append({'entry': name, 'history': [op_str(o) for o in ops]})
 
+def coded_pool(ctx, e):
+    """a pool of values for a coded entry and skewed repetition counts (so that a merged region has a real
+    dictionary / code lengths beyond one byte)"""
+    sh = shape(e); vg = gen.ValueGen(ctx.rng)
+    if contains(e, 'huf'):
+        # symbols 0..13 with counts 2^i: code lengths up to 13 bits
+        syms = list(range(14))
+        train = [[s_] * (2 ** i) for i, s_ in enumerate(syms)]
+        def cover(v, sh):
+            # replace every huffman symbol list by covered symbols
+            k = sh[0]
+            if k == 'list' and sh[1][0] == 'n' and sh[1][1] in ('u8', 'u16'): return [ctx.rng.choice(syms) for _ in v]
+            if k == 'list': return [cover(x, sh[1]) for x in v]
+            if k == 'tup': return [cover(x, t) for x, t in zip(v, sh[1])]
+            return v
+        pool = [cover(vg.gen(sh), sh) for _ in range(8)]
+        # training values: one value per symbol run, shaped like the entry
+        def shaped(run, sh):
+            k = sh[0]
+            if k == 'list' and sh[1][0] == 'n' and sh[1][1] in ('u8', 'u16'): return run
+            if k == 'list': return [shaped(run, sh[1])]
+            if k == 'tup': return [shaped(run, sh[1][0])] + [vg.gen(t) for t in sh[1][1:]]
+            return run
+        return pool, [shaped(r, sh) for r in train]
+    pool = [vg.gen(sh) for _ in range(6)]
+    train = [v for i, v in enumerate(pool) for _ in range(2 ** i)]
+    ctx.rng.shuffle(train)
+    return pool, train
+
+def trained_prefix(ctx, e, dst, src):
+    """ops that train slot src and make slot dst = merge_regions([src]); returns (ops, pool of covered values)"""
+    pool, train = coded_pool(ctx, e)
+    ops = [('push', src, 0, v) for v in train] + [('merge', dst, [src])]
+    return ops, pool
+
 # ------------------------------------------------------------------ C01
 def c01(ctx):
     res = Result()
@@ -245,6 +280,16 @@ def c01(ctx):
                 if r < 0.06 and ops: ops.append(('clear', 0))
                 elif r < 0.12 and ops: ops.append(('probe', 0))
                 else: ops.append(hg.push(0))
+            ops.append(('probe', 0))
+            cases.append((name, ops)); note_case(res, name, ops)
+    # coded regions built by merge_regions, data covered by the statistics they were built from
+    for name, e in pick_entries(lambda nm, e: coded(e)):
+        for _ in range(max(3, n_hist // 6)):
+            ops, pool = trained_prefix(ctx, e, 0, 1)
+            nf = len(forms(e))
+            for _ in range(ctx.rng.choice([3, 8, 20])):
+                ops.append(('push', 0, ctx.rng.randrange(nf), ctx.rng.choice(pool)))
+                if ctx.rng.random() < 0.2: ops.append(('probe', 0))
             ops.append(('probe', 0))
             cases.append((name, ops)); note_case(res, name, ops)
     run_regions(ctx, res, cases, lambda e, ops, obs, mo=None: ref_oracle(e, ops, obs, (), mo), 'values')
@@ -335,6 +380,17 @@ def c08(ctx):
                 for _ in range(ctx.rng.choice([1, 2, 4, 8])):
                     p = hg.push(0); ops.append(p); ops.append(('push', 1, p[2], p[3], 'twin'))
                 ops.append(('probe', 0)); ops.append(('probe', 1))
+            cases.append((name, ops)); note_case(res, name, ops)
+    # coded regions: the history before the clear includes a merge_regions (dictionary / code table present)
+    for name, e in pick_entries(lambda nm, e: coded(e)):
+        for _ in range(max(3, n // 5)):
+            ops, pool = trained_prefix(ctx, e, 0, 2)
+            hg = HistGen(ctx, name, e)
+            ops += [('push', 0, 0, ctx.rng.choice(pool)) for _ in range(ctx.rng.choice([0, 2, 6]))]
+            ops.append(('clear', 0))
+            for _ in range(ctx.rng.choice([2, 5, 9])):
+                p = hg.push(0); ops.append(p); ops.append(('push', 1, p[2], p[3], 'twin'))
+            ops += [('probe', 0), ('probe', 1)]
             cases.append((name, ops)); note_case(res, name, ops)
     run_regions(ctx, res, cases, lambda e, ops, obs, mo=None: ref_oracle(e, ops, obs, [paired_clause(0, 1)], mo), 'full')
     return res
@@ -1256,6 +1312,21 @@ def c15(ctx):
             for i in range(m):
                 ops.append(('cmp', 0, i, False, 1, i, False))
                 ops.append(('cmp', 1, i, False, 0, i, ctx.rng.random() < 0.3))
+            cases.append((name, ops)); note_case(res, name, ops)
+    # Huffman items: raw (untrained container, or borrowed from an owned Vec) versus encoded (merged container)
+    for name, e in pick_entries(lambda nm, e: e[0] == 'huf'):
+        for _ in range(n):
+            syms = [ctx.rng.randrange(6) for _ in range(3)]
+            dom = [[ctx.rng.choice(syms) for _ in range(ctx.rng.choice([0, 1, 2, 3, 5]))] for _ in range(5)]
+            dom += [v[:-1] for v in dom if v][:2] + [dom[0]]
+            ops = [('push', 0, 0, v) for v in dom] + [('push', 2, 0, v) for v in dom] + [('push', 2, 0, syms * 3), ('merge', 1, [2])]
+            order = list(range(len(dom))); ctx.rng.shuffle(order)
+            ops += [('push', 1, 0, dom[j]) for j in order]
+            for i in range(len(dom)):
+                for j in range(len(dom)):
+                    if ctx.rng.random() < 0.6:
+                        a, b = ctx.rng.choice([(0, 1), (1, 0), (1, 1), (0, 0)])
+                        ops.append(('cmp', a, i, ctx.rng.random() < 0.3, b, j, ctx.rng.random() < 0.3))
             cases.append((name, ops)); note_case(res, name, ops)
     def clause_for(e):
         def clause(t, op, g, ref, sc):
